@@ -4,8 +4,13 @@
 //! delayed-drop checkouts) only run at the `run` op (current-thread runtime, paused clock).
 //!
 //! line: `pool <idleTimeoutMs|-> <maxIdle> <cap 0|1> ; <op> ; <op> …`
-//!   op: `i r k mux` issue | `p r` poll | `c r` cancel | `d r ok0|ok1|fc|fh` dial outcome | `f r` finish
-//!       | `cr c` connection ready again | `cc c` peer closes connection | `run` | `t ms` (real sleep) | `mark`
+//!   idleTimeout: `-` none, `<ms>`, or `u<µs>` (a timeout below one millisecond)
+//!   op: `i r k mux` issue | `p r` poll | `c r` cancel | `d r ok0|ok1|okp|fc|fh` dial outcome (okp: the protocol
+//!       comes back with a connection that cannot be shared, whatever the request asked for) | `f r` the response
+//!       arrives | `cr c` connection ready again | `cc c` peer closes connection | `run`
+//!       | `t ms` (real sleep, tokio's paused clock advanced by as much, no task runs) | `mark`
+//! The inner service is hyperdriver's own `RequestExecutor`; the scripted connection's response future
+//! completes at `f r`, and its readiness (`cr c`) is scripted independently of that.
 //! obs per op: `<res> <connecting> <waiting> <idle> <h1drops> <dials>`, ops separated by ` ; `
 //!   res: D done | N no-op | P pending | G<c>.<reused>.<originKey>.<h2> | E<k> | X panic, `w` appended when the
 //!        request's waker fired since its previous poll
@@ -15,7 +20,7 @@ use hyperdriver::client::conn::{Connection, ProtocolRequest, Transport};
 use hyperdriver::client::pool::{PoolableConnection, PoolableStream, Pooled};
 use hyperdriver::client::ConnectionPoolService;
 use hyperdriver::info::{ConnectionInfo, HasConnectionInfo};
-use hyperdriver::service::ExecuteRequest;
+use hyperdriver::service::{ExecuteRequest, RequestExecutor};
 use hyperdriver::stream::duplex::DuplexAddr;
 use hyperdriver::Body;
 use std::collections::{HashMap, HashSet};
@@ -42,12 +47,13 @@ pub const KEYS: &[&[&str]] = &[
 const CONFUSABLE: &[&[u64]] = &[&[0, 4], &[1, 5], &[2, 6], &[2, 7], &[6, 7], &[0, 1], &[0, 2], &[0, 3]];
 
 fn key_of_uri(uri: &http::Uri) -> usize {
+    if let Some(k) = uri.host().and_then(|h| h.strip_prefix('n')).and_then(|h| h.strip_suffix(".example")).and_then(|k| k.parse::<usize>().ok()) { return k; }
     let s = format!("{}://{}", uri.scheme_str().unwrap_or("").to_ascii_lowercase(), uri.authority().map(|a| a.as_str().to_ascii_lowercase()).unwrap_or_default());
     KEYS.iter().position(|vs| vs[0] == s).unwrap_or(99)
 }
 
 #[derive(Clone, Copy, PartialEq, Debug)]
-enum Outcome { Ok(bool), FailConnect, FailHandshake }
+enum Outcome { Ok(bool, bool), FailConnect, FailHandshake } // Ok(alpn chose h2, not shareable)
 
 #[derive(Default)]
 struct DialSlot { started: bool, outcome: Option<Outcome>, waker: Option<Waker> }
@@ -68,6 +74,7 @@ struct World {
     dial_count: usize,
     conns: Vec<Arc<ConnState>>,
     execs: Vec<(usize, usize, bool)>, // (req, conn, is_reused)
+    reused: HashMap<usize, bool>,
     finished: HashSet<usize>,
     exec_wakers: HashMap<usize, Waker>,
     h1_drops: usize,
@@ -82,7 +89,7 @@ struct SErr(&'static str);
 impl std::fmt::Display for SErr { fn fmt(&self, f: &mut std::fmt::Formatter<'_>) -> std::fmt::Result { write!(f, "{}", self.0) } }
 impl std::error::Error for SErr {}
 
-struct SIo { req: usize, origin: usize, alpn: bool, handshake_fails: bool }
+struct SIo { req: usize, origin: usize, alpn: bool, plain: bool, handshake_fails: bool }
 impl HasConnectionInfo for SIo {
     type Addr = DuplexAddr;
     fn info(&self) -> ConnectionInfo<DuplexAddr> { ConnectionInfo { local_addr: DuplexAddr::new(), remote_addr: DuplexAddr::new() } }
@@ -100,8 +107,8 @@ impl Future for SDial {
         match slot.outcome {
             None => { slot.waker = Some(cx.waker().clone()); Poll::Pending }
             Some(Outcome::FailConnect) => Poll::Ready(Err(SErr("connect"))),
-            Some(Outcome::Ok(alpn)) => Poll::Ready(Ok(SIo { req: self.req, origin: self.origin, alpn, handshake_fails: false })),
-            Some(Outcome::FailHandshake) => Poll::Ready(Ok(SIo { req: self.req, origin: self.origin, alpn: false, handshake_fails: true })),
+            Some(Outcome::Ok(alpn, plain)) => Poll::Ready(Ok(SIo { req: self.req, origin: self.origin, alpn, plain, handshake_fails: false })),
+            Some(Outcome::FailHandshake) => Poll::Ready(Ok(SIo { req: self.req, origin: self.origin, alpn: false, plain: false, handshake_fails: true })),
         }
     }
 }
@@ -127,8 +134,15 @@ impl Drop for SConn {
 impl Connection<Body> for SConn {
     type ResBody = Body;
     type Error = SErr;
-    type Future = std::future::Ready<Result<http::Response<Body>, SErr>>;
-    fn send_request(&mut self, _: http::Request<Body>) -> Self::Future { std::future::ready(Err(SErr("unused"))) }
+    type Future = SSend;
+    fn send_request(&mut self, request: http::Request<Body>) -> SSend {
+        let req = req_of(request.headers());
+        if !self.st.h2 { self.st.busy.store(true, Ordering::SeqCst); }
+        let mut w = self.w.lock().unwrap();
+        let reused = w.reused.get(&req).copied().unwrap_or(false);
+        w.execs.push((req, self.id, reused));
+        SSend { w: self.w.clone(), req }
+    }
     fn poll_ready(&mut self, cx: &mut Context<'_>) -> Poll<Result<(), SErr>> {
         if !self.st.open.load(Ordering::SeqCst) { return Poll::Ready(Err(SErr("closed"))); }
         if self.st.busy.load(Ordering::SeqCst) { self.st.wakers.lock().unwrap().push(cx.waker().clone()); return Poll::Pending; }
@@ -153,7 +167,7 @@ impl Service<ProtocolRequest<SIo, Body>> for SProtocol {
     fn call(&mut self, req: ProtocolRequest<SIo, Body>) -> Self::Future {
         let io = req.transport;
         if io.handshake_fails { return std::future::ready(Err(ConnectionError::Handshake(Box::new(SErr("handshake"))))); }
-        let h2 = req.version.multiplex() || io.alpn;
+        let h2 = !io.plain && (req.version.multiplex() || io.alpn);
         let mut w = self.0.lock().unwrap();
         let st = Arc::new(ConnState { lax: w.lax, h2, origin: io.origin, open: AtomicBool::new(true), busy: AtomicBool::new(false), wakers: Mutex::new(vec![]) });
         let id = w.conns.len();
@@ -163,30 +177,30 @@ impl Service<ProtocolRequest<SIo, Body>> for SProtocol {
     }
 }
 
-// ---- inner service: holds the pooled connection until `finish`
-#[derive(Clone)]
-struct SExec(W);
-struct SExecFut { w: W, req: usize, pooled: Option<Pooled<SConn, Body>> }
-impl Future for SExecFut {
-    type Output = Result<http::Response<Body>, hyperdriver::client::Error>;
-    fn poll(mut self: Pin<&mut Self>, cx: &mut Context<'_>) -> Poll<Self::Output> {
-        let done = { let mut w = self.w.lock().unwrap(); let d = w.finished.contains(&self.req); if !d { w.exec_wakers.insert(self.req, cx.waker().clone()); } d };
-        if done { self.pooled.take(); Poll::Ready(Ok(http::Response::new(Body::empty()))) } else { Poll::Pending }
+// ---- the response future of the scripted connection: completes at `f r`
+struct SSend { w: W, req: usize }
+impl Future for SSend {
+    type Output = Result<http::Response<Body>, SErr>;
+    fn poll(self: Pin<&mut Self>, cx: &mut Context<'_>) -> Poll<Self::Output> {
+        let mut w = self.w.lock().unwrap();
+        if w.finished.contains(&self.req) { Poll::Ready(Ok(http::Response::new(Body::empty()))) }
+        else { w.exec_wakers.insert(self.req, cx.waker().clone()); Poll::Pending }
     }
 }
+
+// ---- inner service: hyperdriver's own `RequestExecutor` (notes `is_reused()` on the way in)
+#[derive(Clone)]
+struct SExec(W, RequestExecutor<Pooled<SConn, Body>, Body>);
 impl Service<ExecuteRequest<Pooled<SConn, Body>, Body>> for SExec {
     type Response = http::Response<Body>;
     type Error = hyperdriver::client::Error;
-    type Future = SExecFut;
-    fn poll_ready(&mut self, _: &mut Context<'_>) -> Poll<Result<(), Self::Error>> { Poll::Ready(Ok(())) }
-    fn call(&mut self, er: ExecuteRequest<Pooled<SConn, Body>, Body>) -> SExecFut {
-        let (pooled, request) = er.into_parts();
-        let req = req_of(request.headers());
-        let reused = pooled.is_reused();
-        let (id, h2) = (pooled.id, pooled.st.h2);
-        if !h2 { pooled.st.busy.store(true, Ordering::SeqCst); }
-        self.0.lock().unwrap().execs.push((req, id, reused));
-        SExecFut { w: self.0.clone(), req, pooled: Some(pooled) }
+    type Future = <RequestExecutor<Pooled<SConn, Body>, Body> as Service<ExecuteRequest<Pooled<SConn, Body>, Body>>>::Future;
+    fn poll_ready(&mut self, cx: &mut Context<'_>) -> Poll<Result<(), Self::Error>> { self.1.poll_ready(cx) }
+    fn call(&mut self, er: ExecuteRequest<Pooled<SConn, Body>, Body>) -> Self::Future {
+        let req = req_of(er.request().headers());
+        let reused = er.connection().is_reused();
+        self.0.lock().unwrap().reused.insert(req, reused);
+        self.1.call(er)
     }
 }
 
@@ -225,10 +239,13 @@ impl Session {
         let w: W = Default::default();
         w.lock().unwrap().lax = cfg.get(3) == Some(&"1");
         let mut pc = hyperdriver::client::pool::Config::default();
-        pc.idle_timeout = cfg[0].parse::<u64>().ok().map(std::time::Duration::from_millis);
+        pc.idle_timeout = match cfg[0].strip_prefix('u') {
+            Some(us) => us.parse::<u64>().ok().map(std::time::Duration::from_micros),
+            None => cfg[0].parse::<u64>().ok().map(std::time::Duration::from_millis),
+        };
         pc.max_idle_per_host = cfg[1].parse().unwrap_or(32);
         pc.continue_after_preemption = cfg[2] == "1";
-        let svc: Svc = ConnectionPoolService::new(STransport(w.clone()), SProtocol(w.clone()), SExec(w.clone()), pc);
+        let svc: Svc = ConnectionPoolService::new(STransport(w.clone()), SProtocol(w.clone()), SExec(w.clone(), RequestExecutor::new()), pc);
         Session { w, svc, reqs: HashMap::new() }
     }
 
@@ -237,9 +254,10 @@ impl Session {
         let res: String = match op.first().copied().unwrap_or("") {
             "i" => {
                 let (r, k, mux) = (n(1), n(2), op.get(3) == Some(&"1"));
-                if self.reqs.contains_key(&r) || k >= KEYS.len() { "N".into() } else {
-                    let variants = KEYS[k];
-                    let uri = format!("{}/r{}", variants[r % variants.len()], r);
+                if self.reqs.contains_key(&r) || k >= 100_000 { "N".into() } else {
+                    // beyond the table: as many further origins as one likes (`http://n<k>.example`)
+                    let uri = if k < KEYS.len() { let variants = KEYS[k]; format!("{}/r{}", variants[r % variants.len()], r) }
+                              else { format!("{}://n{k}.example/r{r}", if r % 2 == 0 { "http" } else { "HTTP" }) };
                     let request = http::Request::builder().uri(uri).version(if mux { http::Version::HTTP_2 } else { http::Version::HTTP_11 })
                         .header("x-req", r.to_string()).body(Body::empty()).unwrap();
                     let fut: Fut = Box::pin(self.svc.call(request));
@@ -303,7 +321,7 @@ impl Session {
             }
             "d" => {
                 let r = n(1);
-                let o = match op.get(2).copied() { Some("ok0") => Some(Outcome::Ok(false)), Some("ok1") => Some(Outcome::Ok(true)), Some("fc") => Some(Outcome::FailConnect), Some("fh") => Some(Outcome::FailHandshake), _ => None };
+                let o = match op.get(2).copied() { Some("ok0") => Some(Outcome::Ok(false, false)), Some("ok1") => Some(Outcome::Ok(true, false)), Some("okp") => Some(Outcome::Ok(false, true)), Some("fc") => Some(Outcome::FailConnect), Some("fh") => Some(Outcome::FailHandshake), _ => None };
                 let waker = {
                     let mut wl = self.w.lock().unwrap();
                     match (wl.dials.get_mut(&r), o) {
@@ -327,7 +345,15 @@ impl Session {
                 }
             }
             "run" => { tokio::time::sleep(std::time::Duration::from_millis(1)).await; "D".into() }
-            "t" => { std::thread::sleep(std::time::Duration::from_millis(n(1) as u64)); "D".into() }
+            "t" => {
+                let d = std::time::Duration::from_millis(n(1) as u64);
+                std::thread::sleep(d);
+                // tokio's (paused) clock moves too, but no task runs before the next `run`: `advance` moves the
+                // clock on its first poll and only then yields
+                let mut adv = Box::pin(tokio::time::advance(d));
+                let _ = adv.as_mut().poll(&mut Context::from_waker(&Waker::from(Arc::new(WakeFlag(AtomicBool::new(false))))));
+                "D".into()
+            }
             "mark" => "D".into(),
             _ => "N".into(),
         };
@@ -344,7 +370,7 @@ async fn run_case(cfg: &[&str], ops: &[Vec<&str>]) -> String {
     let mut sess = Session::new(cfg);
     let mut out: Vec<String> = Vec::new();
     // idle expiry uses the real clock: if the machine stalls, the measured case says nothing
-    let timed = cfg[0].parse::<u64>().map(|t| t > 0 && t < 10_000).unwrap_or(false);
+    let timed = cfg[0].starts_with('u') || cfg[0].parse::<u64>().map(|t| t > 0 && t < 10_000).unwrap_or(false);
     let mut unreliable = false;
     for op in ops {
         let t0 = std::time::Instant::now();
@@ -371,10 +397,50 @@ pub fn run(toks: &[&str]) -> String {
 /// Feedback-driven generation: the schedule is produced while running the real pool, so that most
 /// operations are enabled (a pollable checkout, a pending dial, a busy connection, ...); about one
 /// op in twelve is drawn blindly to keep disabled ops in the mix. Only the op list is emitted.
-pub fn gen(r: &mut Rng, i: u64) -> String { gen_mode(r, i, false) }
+pub fn gen(r: &mut Rng, i: u64) -> String { if i % 1000 == 999 { gen_many_origins(r) } else { gen_mode(r, i, false) } }
+
+/// A pool that has seen several hundred origins: a few early ones leave a connection behind (idle, or still in use),
+/// then every further origin is asked for once, then the early ones again.
+fn gen_many_origins(r: &mut Rng) -> String {
+    let early = r.range(1, 4);
+    let total = r.range(257, 340);
+    let mut ops: Vec<String> = Vec::new();
+    let mut q = 0u64;
+    let mut in_use: Vec<u64> = vec![];
+    for k in 0..early {
+        let key = if k < 2 { k } else { 8 + k };
+        ops.push(format!("i {q} {key} 0")); ops.push(format!("p {q}")); ops.push(format!("d {q} ok0")); ops.push(format!("p {q}"));
+        if r.chance(2, 3) { ops.push(format!("f {q}")); ops.push(format!("cr {k}")); ops.push("run".into()); } else { in_use.push(q); }
+        q += 1;
+    }
+    for j in 0..total {
+        ops.push(format!("i {q} {} 0", 20 + j)); ops.push(format!("p {q}"));
+        if r.chance(1, 40) { ops.push(format!("d {q} ok0")); ops.push(format!("p {q}")); }
+        ops.push(format!("c {q}"));
+        q += 1;
+    }
+    ops.push("mark".into());
+    for x in in_use { ops.push(format!("f {x}")); }
+    for k in 0..early { ops.push(format!("cr {k}")); }
+    ops.push("run".into()); ops.push("mark".into()); ops.push("mark".into());
+    for k in 0..early {
+        let key = if k < 2 { k } else { 8 + k };
+        ops.push(format!("i {q} {key} 0")); ops.push(format!("p {q}"));
+        q += 1;
+    }
+    // … and some of the late ones
+    for _ in 0..12 {
+        ops.push(format!("i {q} {} 0", 20 + total - 1 - r.below(total.min(90)))); ops.push(format!("p {q}"));
+        q += 1;
+    }
+    format!("- 32 0 0 ; {}", ops.join(" ; "))
+}
 /// Timed cases: real idle expiry (50 ms timeout, real sleeps of 5 / 150 ms). Slow, hence a stream of its own.
 pub fn gen_timed(r: &mut Rng, i: u64) -> String {
     if i % 3 == 2 { return gen_mode(r, i, true); }
+    if i % 6 == 4 { return gen_busy_past_timeout(r); }
+    // every other idle-list case has a timeout below a millisecond: every tick outlasts it
+    let sub_ms = i % 6 == 1;
     // idle-list scenario: build an idle list whose entries differ in age and liveness, then check out
     let n = r.range(2, 4);
     let k = r.below(KEYS.len() as u64);
@@ -391,7 +457,7 @@ pub fn gen_timed(r: &mut Rng, i: u64) -> String {
         ops.push(format!("f {q}"));
         ops.push(format!("cr {q}"));
         ops.push("run".into());
-        match r.below(3) { 0 => ops.push("t 150".into()), 1 => ops.push("t 5".into()), _ => {} }
+        match r.below(3) { 0 => ops.push("t 150".into()), 1 => ops.push("t 5".into()), _ => { if sub_ms { ops.push("t 5".into()) } } }
     }
     for c in 0..n { if r.chance(1, 3) { ops.push(format!("cc {c}")); } }
     if r.chance(1, 3) { ops.push("t 150".into()); }
@@ -399,7 +465,48 @@ pub fn gen_timed(r: &mut Rng, i: u64) -> String {
     for q in 10..10 + m { ops.push(format!("i {q} {k} 0")); ops.push(format!("p {q}")); }
     for q in 10..10 + m { ops.push(format!("d {q} ok0")); ops.push(format!("p {q}")); }
     ops.push("mark".into()); ops.push("run".into()); ops.push("mark".into()); ops.push("mark".into());
-    format!("X50 {max_idle} {} 0 ; {}", r.chance(1, 2) as u8, ops.join(" ; "))
+    let timeout = if sub_ms { format!("u{}", r.pick(&[1u64, 500, 999])) } else { "50".to_string() };
+    format!("X{timeout} {max_idle} {} 0 ; {}", r.chance(1, 2) as u8, ops.join(" ; "))
+}
+
+/// Every shape of an idle list of 1-3 connections - the k oldest expired, any subset closed by the peer - followed by
+/// two checkouts (72 cases).
+pub fn exhaustive_idle() -> Vec<String> {
+    let mut out = vec![];
+    for n in 1..=3u64 { for k in 0..=n { for mask in 0..(1u64 << n) { for cap in 0..2 {
+        if cap == 1 && n < 3 { continue; }
+        let mut ops: Vec<String> = Vec::new();
+        for q in 0..n { ops.push(format!("i {q} 0 0")); ops.push(format!("p {q}")); ops.push(format!("d {q} ok0")); ops.push(format!("p {q}")); }
+        for q in 0..n {
+            ops.push(format!("f {q}")); ops.push(format!("cr {q}")); ops.push("run".into());
+            if q + 1 == k { ops.push("t 150".into()); }
+        }
+        for c in 0..n { if mask >> c & 1 == 1 { ops.push(format!("cc {c}")); } }
+        for q in 10..12 { ops.push(format!("i {q} 0 0")); ops.push(format!("p {q}")); }
+        for q in 10..12 { ops.push(format!("d {q} ok0")); ops.push(format!("p {q}")); }
+        ops.push("mark".into()); ops.push("run".into()); ops.push("mark".into()); ops.push("mark".into());
+        out.push(format!("pool 50 32 {cap} 0 ; {}", ops.join(" ; ")));
+    } } } }
+    out
+}
+
+/// Released connections that stay busy (response not consumed) for longer than the idle timeout, then
+/// further requests to the origin, then the connections become ready.
+fn gen_busy_past_timeout(r: &mut Rng) -> String {
+    let n = r.range(1, 3);
+    let k = r.below(KEYS.len() as u64);
+    let mut ops: Vec<String> = Vec::new();
+    for q in 0..n { ops.push(format!("i {q} {k} 0")); ops.push(format!("p {q}")); ops.push(format!("d {q} ok0")); ops.push(format!("p {q}")); }
+    for q in 0..n { ops.push(format!("f {q}")); ops.push("run".into()); }
+    ops.push(format!("t {}", r.pick(&[150u64, 150, 5])));
+    ops.push("run".into());
+    let m = r.range(1, 2);
+    for q in 10..10 + m { ops.push(format!("i {q} {k} 0")); ops.push(format!("p {q}")); }
+    for c in 0..n { if r.chance(2, 3) { ops.push(format!("cr {c}")); } }
+    ops.push("run".into());
+    for q in 10..10 + m { ops.push(format!("p {q}")); ops.push(format!("d {q} ok0")); ops.push(format!("p {q}")); }
+    ops.push("mark".into()); ops.push("run".into()); ops.push("mark".into()); ops.push("mark".into());
+    format!("X50 {} {} {} ; {}", r.pick(&[32u64, 2]), r.chance(1, 2) as u8, r.chance(2, 3) as u8, ops.join(" ; "))
 }
 
 fn gen_mode(r: &mut Rng, _i: u64, timed: bool) -> String {
@@ -464,7 +571,7 @@ fn gen_mode(r: &mut Rng, _i: u64, timed: bool) -> String {
                 }
                 3 => {
                     let q = if blind || dials.is_empty() { any_req(r) } else { *r.pick(&dials) as u64 };
-                    emit!(format!("d {q} {}", r.pick(&["ok0", "ok0", "ok0", "ok0", "ok1", "fc", "fh"])));
+                    emit!(format!("d {q} {}", r.pick(&["ok0", "ok0", "ok0", "ok0", "ok1", "fc", "fh", "okp"])));
                 }
                 4 => { let q = if blind || ex.is_empty() { any_req(r) } else { *r.pick(&ex) as u64 }; emit!(format!("f {q}")); }
                 5 => { let c = if blind || busy.is_empty() { r.below(6) } else { *r.pick(&busy) as u64 }; emit!(format!("cr {c}")); }
